@@ -384,3 +384,27 @@ Example upsim_example : UpSim us_le us_B /\ us_le 1 2 = true /\ us_le 2 1 = fals
   up_worklist_sim us_le us_A us_B 20 = Some true /\ up_worklist_sim us_le us_A2 us_B 20 = Some false /\
   minimize us_le [1; 2]%N = [2%N].
 Proof. split; [apply upsim_b_sound; vm_compute; reflexivity|]. vm_compute. repeat split; reflexivity. Qed.
+
+(* ---------- a relation to run the model with: the greatest candidate inside "final states upward closed", by refinement ---------- *)
+From V Require Import Gfp.
+Definition rel_le (R : list (N * N)) (p q : N) : bool := N.eqb p q || existsb (fun x => N.eqb (fst x) p && N.eqb (snd x) q) R.
+Definition list_eqb (a b : list N) : bool := if list_eq_dec N.eq_dec a b then true else false.
+Definition up_keep (B : ta) (R : list (N * N)) (x : N * N) : bool :=
+  implb (memN (fst x) (finals B)) (memN (snd x) (finals B)) &&
+  forallb (fun r => forallb (fun i => implb (N.eqb (nth i (ch r) 0%N) (fst x))
+      (existsb (fun r' => N.eqb (sym r') (sym r) && list_eqb (ch r') (replace_at (ch r) i (snd x)) && rel_le R (par r) (par r')) (rules B)))
+    (seq 0 (length (ch r)))) (rules B).
+Definition upsim_gfp (B : ta) : list (N * N) :=
+  let all := list_prod (QB B) (QB B) in refine (N * N) (up_keep B) (S (length all)) all.
+(* the run with that relation — only when the relation passes the decidable hypothesis check *)
+Definition up_sim_model (fuel : nat) (A B : ta) : option bool :=
+  let le := rel_le (upsim_gfp B) in if upsim_b le B then up_worklist_sim le A B fuel else None.
+Theorem up_sim_model_refines fuel A B b : up_sim_model fuel A B = Some b -> b = incl_dec A B.
+Proof.
+  unfold up_sim_model. destruct (upsim_b (rel_le (upsim_gfp B)) B) eqn:E; [|discriminate].
+  apply up_worklist_sim_refines. apply upsim_b_sound. exact E.
+Qed.
+Example up_sim_model_example :
+  up_sim_model 20 us_A us_B = Some true /\ up_sim_model 20 us_A2 us_B = Some false /\
+  existsb (fun x => negb (N.eqb (fst x) (snd x))) (upsim_gfp us_B) = true.
+Proof. vm_compute. repeat split; reflexivity. Qed.
